@@ -1,6 +1,6 @@
 // unit `upd_dec` -- `<Update as Decode>::decode` (yrs/src/update.rs), WHOLE real body.  Serves C10 (arbitrary bytes => value or
 // error, time / memory proportional to the input, no panic / overflow / unbounded allocation) and supplies the representation
-// invariant that unit `upd` (C08) ASSUMES about decoded updates (`upd_ok`, and `upd_wf` for one-section-per-client updates).
+// invariant that unit `upd` (C08) ASSUMES about decoded updates (`upd_ok` and `upd_wf`, both unconditionally).
 //
 // WHAT IS PROVED about `Update::decode::<D>(decoder)` for EVERY decoder D (abstract `Decoder`, see DECODER MODEL):
 //   (a) TOTAL      returns Ok / Err on every input: no arithmetic overflow (`clock.checked_add(block.len())`), no panic, both
@@ -15,24 +15,21 @@
 //   (c) SHAPE      there is a listing `ss` of the client SECTIONS in wire order (`SecView { client, start, blocks }`: the client
 //                  and clock header of the section and the blocks it contributed) with `sections_of(ss, result.blocks.clients@)`:
 //                    * every section is a RUN (`run_ok`): all its blocks carry the section's client, block i starts at
-//                      start + (sum of the lengths of the blocks before it), clock + len <= u32::MAX, an Item has len >= 1;
-//                    * a client is a key of the map iff its sections contributed at least one block (`retain`: NO EMPTY LIST),
-//                    * the list of client c is `gather(ss, c)`: the concatenation, in wire order, of the runs of c's sections.
-//                  Corollaries (proved lemmas, also stated as ensures): `upd_ok(result)` (= unit upd's `upd_ok`, quoted below),
-//                  `no_empty_list`, `keys_match` (every block sits under its own client), and `lemma_single_section_wf`:
-//                  if no two NON-EMPTY sections name the same client (what every encoder of the crate writes) then
-//                  `upd_wf(result)` (= unit upd's `upd_wf`: per client CONTIGUOUS).  REPEATED SECTIONS of one client are appended
-//                  to the same list and NOTHING relates the header clock of a later section to the end of the previous run:
-//                  `Update::decode_v1(&[2, 1,1,0, 0,5, 1,1,9, 0,3, 0])` is Ok with client 1 -> [GC 0..5, GC 9..12] (gap without
-//                  a Skip; `state_vector()` = {1: 12}), `[2, 1,1,0, 0,5, 1,1,3, 0,3, 0]` -> [GC 0..5, GC 3..6] (overlap).  That is
-//                  what holds, not more: `upd_wf` is NOT claimed for such inputs.  OBSERVATION O-UD-1 (checked with cargo): both
-//                  values re-encode (`encode_v1`) to [1, 2,1,0, 0,5, 0,3, 0] = ONE section GC 0..5, GC 5..8 -- the encoder writes
-//                  only the first clock of a list (unit upd: `lemma_section_exact` clause (3) needs contiguity), so for such a
-//                  decoded value u, decode(encode(u)) != u and the second run silently moves from 9..12 to 5..8.  (Yjs itself
-//                  REPLACES the earlier section of a repeated client; no encoder of either library writes a client twice.)
-//                  OBSERVATION O-UD-2 (unit upd's observation (b)): a GC / Skip block of length 0 comes off the wire as a block
-//                  (`[1, 1,1,0, 0,0, 0]` -> {1: [GC 0 len 0]}; `retain` keeps the list, it is not empty) but `encode_diff` never
-//                  selects it (0 + 0 > 0 is false): the value re-encodes to [0, 0], again decode(encode(u)) != u.
+//                      start + (sum of the lengths of the blocks before it), clock + len <= u32::MAX, EVERY block has len >= 1
+//                      (Item: `Item::new`; Skip / GC: the `if len == 0 { return Ok(None); }` guards of decode_block);
+//                    * the list of client c is `latest(ss, c)`: the run of c's LAST section -- a repeated client section
+//                      REPLACES the earlier one (`Entry::Occupied(e) => { let blocks = e.into_mut(); blocks.clear(); blocks }`,
+//                      the Yjs behaviour; lifted step `upd_decode_claim`: every section starts from an EMPTY list);
+//                    * a client is a key of the map iff its LAST section contributed at least one block (`retain`: NO EMPTY
+//                      LIST; note that a later section without blocks erases an earlier one with blocks).
+//                  Hence UNCONDITIONALLY (ensures of `decode`, lemma_sections_exact): `upd_wf(result)` = unit upd's representation
+//                  invariant, quoted below (`upd_ok` + per client CONTIGUOUS: every list is ONE run, starting at its section's
+//                  clock header), `no_empty_list`, `keys_match` (every block under its own client), `all_len_pos`, and
+//                  `sections_exact`: every list IS `ss[j].blocks` for a section j of that client.
+//                  HISTORY: before the repair of /repo (O-UD-1, O-UD-2 of this unit, found with cargo) repeated sections were
+//                  APPENDED (`[2, 1,1,0, 0,5, 1,1,9, 0,3, 0]` -> client 1: [GC 0..5, GC 9..12], re-encoded as GC 0..5, GC 5..8) and
+//                  GC / Skip blocks of length 0 were kept (`[1, 1,1,0, 0,0, 0]` re-encoded to [0, 0]): decode(encode(u)) != u for
+//                  such decoded values, and `upd_wf` only held under a one-section-per-client hypothesis.
 //   (d) SIZE       2 * |ss| < bytes consumed (sections / map entries: every decoder);  for a v1 decoder additionally
 //                  |ss| + (total number of blocks) < bytes consumed: the VALUE is linear in the input.
 //   (e) STEP       the body of the inner loop is ALSO lifted on its own (`upd_decode_step`, R18) against `step_ok`: nothing, or
@@ -65,7 +62,7 @@
 //                             Its Item arm needs ItemContent::decode / Item::new / Box / ItemPtr (pointer core): not ingestible.
 //                             CONTRACT = exactly what `decode` needs, each clause justified from the real text at the declaration.
 //                             The Skip and GC arms are ALSO lifted mechanically (R18) and verified against that contract
-//                             (`decode_block_skip`, `decode_block_gc`), so two of the three arms are not taken on trust.
+//                             (`decode_block_skip`, `decode_block_gc`, incl. the `if len == 0` guards), so two of the three arms are not taken on trust.
 //   `read_var` is the real `lib0::Read::read_var` (units/lib0_common/*, proved equal to the spec decoders there).
 //
 // STAND-IN TYPES (everything else is extracted verbatim from /repo on every run)
@@ -82,8 +79,10 @@
 //
 // TRUSTED (std calls Verus cannot ingest, each with its std-documented contract at the declaration; module vx_trusted)
 //   axiom_client_id_key_model         A4 (as in units sv / upd / dec_comp): derived Hash / Eq of ClientID agree.
-//   VxMapApi::vx_or_insert_with       std `HashMap::entry(k).or_insert_with(f)` (same text as unit upd); the closure stays the real
-//                                     one (`|| VecDeque::new()`, annotated @closure).
+//   VxMapApi::vx_entry                std `HashMap::entry(k)`: the slot-lens model of units ids_lift / awareness (the entry of key k
+//                                     is a mutable optional SLOT of the map; Entry / OccupiedEntry / VacantEntry are stand-in types,
+//                                     `VacantEntry::insert` and `OccupiedEntry::into_mut` are VERIFIED against the slot).  The real
+//                                     `match` with both arms is kept; `blocks.clients.entry` is spelled `blocks.clients.vx_entry` (SUB).
 //   VxMapApi::vx_retain               std `HashMap::retain(f)` (same contract as unit ids_lift's BTreeMap::retain); the closure
 //                                     stays the real one (`|_, blocks| !blocks.is_empty()`, annotated @closure).
 //   VxBudget::try_reserve             std `HashMap::try_reserve` / `VecDeque::try_reserve`: only the capacity changes (the stand-in
@@ -95,9 +94,7 @@
 //   IdSet::decode stub (see above); decode_block (bodiless, see above); + what units/lib0_common/base.rs trusts.
 //
 // REWRITES (all logged): R9, R10; SUB: the hasher type parameter, `crate::encoding::read::Error` -> Error, the constructor and
-//   call spellings listed above; `.entry(client)` + `.or_insert_with(|| VecDeque::new())` -> `.vx_or_insert_with(client, || VecDeque::new())`
-//   (two SUBs because the real text has a line break between them; the first deletes `.entry(client)`, the second names `client`
-//   again, so an edit of the key makes the result uncompilable = UNDECIDED, never a silent pass).
+//   call spellings listed above.
 //
 // NOT IN THIS UNIT: `decode_block`'s Item arm (ItemContent::decode, Item::new), the public wrappers `decode_v1` / `decode_v2`
 //   (DecoderV1::from / DecoderV2::new: units dec_comp / lib0_v2), what `Update::integrate` does with a decoded value.
@@ -118,8 +115,7 @@ verus! {
    SUB(from=HashMap::with_hasher(BuildHasherDefault::default());;to=HashMap::new())
    SUB(from=clients.try_reserve;;to=vx_budget(decoder).for_map(&clients).try_reserve)
    SUB(from=blocks.try_reserve;;to=vx_budget(decoder).for_deque(&*blocks).try_reserve)
-   SUB(from=.entry(client);;to=)
-   SUB(from=.or_insert_with(|| VecDeque::new());;to=.vx_or_insert_with(client, || VecDeque::new()))
+   SUB(from=blocks.clients.entry;;to=blocks.clients.vx_entry)
    SUB(from=Self::decode_block(id, decoder);;to=D::decode_block(id, decoder))
    SUB(from=.retain;;to=.vx_retain)
 @*/
@@ -193,19 +189,74 @@ pub mod vx_trusted {
     {
     }
 
+    // ---- std::collections::hash_map::{Entry, OccupiedEntry, VacantEntry} (A2, R17 stand-in; the model of units ids_lift /
+    // awareness).  The entry for key `k` is a mutable optional SLOT of the map.  The only trusted function is `vx_entry`
+    // (std: "Gets the given key's corresponding entry in the map for in-place manipulation"); `VacantEntry::insert` ("Sets the
+    // value of the entry with the VacantEntry's key, and returns a mutable reference to it") is VERIFIED against the slot model.
+    pub struct OccupiedEntry<'a, V> { pub slot: &'a mut Option<V> }
+
+    pub struct VacantEntry<'a, V> { pub slot: &'a mut Option<V> }
+
+    pub enum Entry<'a, V> {
+        Occupied(OccupiedEntry<'a, V>),
+        Vacant(VacantEntry<'a, V>),
+    }
+
+    /// the map after the borrow of key `k`'s slot ends with content `s`
+    pub open spec fn slot_map<V>(m: Map<ClientID, V>, k: ClientID, s: Option<V>) -> Map<ClientID, V> {
+        match s {
+            Some(v) => m.insert(k, v),
+            None => if m.contains_key(k) { m.remove(k) } else { m },
+        }
+    }
+
+    pub open spec fn entry_of<V>(e: Entry<'_, V>, m: Map<ClientID, V>, k: ClientID) -> bool {
+        if m.contains_key(k) {
+            e is Occupied && *e->Occupied_0.slot == Some(m[k])
+        } else {
+            e is Vacant && *e->Vacant_0.slot == None::<V>
+        }
+    }
+
+    #[verifier::prophetic]
+    pub open spec fn entry_final<V>(e: Entry<'_, V>) -> Option<V> {
+        match e {
+            Entry::Occupied(o) => *final(o.slot),
+            Entry::Vacant(v) => *final(v.slot),
+        }
+    }
+
+    impl<'a, V> OccupiedEntry<'a, V> {
+        /// std: "Converts the OccupiedEntry into a mutable reference to the value in the entry" (verified against the slot model)
+        pub fn into_mut(self) -> (r: &'a mut V)
+            requires old(self.slot).is_some(),
+            ensures
+                *r == old(self.slot).unwrap(),
+                *final(self.slot) == Some(*final(r)),
+        {
+            self.slot.as_mut().unwrap()
+        }
+    }
+
+    impl<'a, V> VacantEntry<'a, V> {
+        pub fn insert(self, v: V) -> (r: &'a mut V)
+            ensures
+                *r == v,
+                *final(self.slot) == Some(*final(r)),
+        {
+            *self.slot = Some(v);
+            self.slot.as_mut().unwrap()
+        }
+    }
+
     pub trait VxMapApi<V> {
         spec fn vx_view(&self) -> Map<ClientID, V>;
 
-        /// A2: std `HashMap::entry(k).or_insert_with(f)`: "Ensures a value is in the entry by inserting the result of the
-        /// default function if empty, and returns a mutable reference to the value in the entry."  No other key is touched;
-        /// the function is only called when the key is absent.  (Same text as unit upd.)
-        fn vx_or_insert_with<'a, F: FnOnce() -> V>(&'a mut self, k: ClientID, f: F) -> (r: &'a mut V)
-            requires
-                !old(self).vx_view().contains_key(k) ==> call_requires(f, ()),
+        /// A2 (trusted): std `HashMap::entry`
+        fn vx_entry<'a>(&'a mut self, k: ClientID) -> (r: Entry<'a, V>)
             ensures
-                old(self).vx_view().contains_key(k) ==> *r == old(self).vx_view()[k],
-                !old(self).vx_view().contains_key(k) ==> call_ensures(f, (), *r),
-                final(self).vx_view() == old(self).vx_view().insert(k, *final(r)),
+                entry_of(r, old(self).vx_view(), k),
+                final(self).vx_view() == slot_map(old(self).vx_view(), k, entry_final(r)),
         ;
 
         /// A2: std `HashMap::retain`: "Retains only the elements specified by the predicate. In other words, remove all
@@ -225,9 +276,9 @@ pub mod vx_trusted {
         open spec fn vx_view(&self) -> Map<ClientID, V> { self@ }
 
         #[verifier::external_body]
-        fn vx_or_insert_with<'a, F: FnOnce() -> V>(&'a mut self, k: ClientID, f: F) -> (r: &'a mut V)
+        fn vx_entry<'a>(&'a mut self, k: ClientID) -> (r: Entry<'a, V>)
         {
-            self.entry(k).or_insert_with(f)
+            unimplemented!()
         }
 
         #[verifier::external_body]
@@ -433,6 +484,11 @@ pub open spec fn no_empty_list(u: Map<ClientID, VecDeque<Block>>) -> bool {
     forall|c: ClientID| #[trigger] u.contains_key(c) ==> u[c]@.len() > 0
 }
 
+/// every block covers at least one clock (Item: `Item::new`; GC / Skip: the `if len == 0 { return Ok(None); }` guards)
+pub open spec fn all_len_pos(u: Map<ClientID, VecDeque<Block>>) -> bool {
+    forall|c: ClientID, i: int| #![trigger u[c]@[i]] u.contains_key(c) && 0 <= i < u[c]@.len() ==> u[c]@[i].bv().len >= 1
+}
+
 /// every block is stored under its own client
 pub open spec fn keys_match(u: Map<ClientID, VecDeque<Block>>) -> bool {
     forall|c: ClientID, i: int| #![trigger u[c]@[i]] u.contains_key(c) && 0 <= i < u[c]@.len() ==> u[c]@[i].spec_client() == c
@@ -458,30 +514,32 @@ pub open spec fn len_sum(bs: Seq<Block>, n: int) -> int
 
 /// a RUN: the blocks of one section.  Block i starts at the section's clock header plus the lengths of the blocks before it
 /// (the reader's running clock: `clock = clock.checked_add(block.len())`), carries the section's client, does not overflow
-/// the u32 clock space, and an Item is not empty.
+/// the u32 clock space, and is not empty (len >= 1).
 pub open spec fn run_ok(client: ClientID, start: int, bs: Seq<Block>) -> bool {
     forall|i: int| 0 <= i < bs.len() ==> {
         &&& (#[trigger] bs[i]).spec_client() == client
         &&& bs[i].bv().clock == start + len_sum(bs, i)
         &&& bs[i].bv().clock + bs[i].bv().len <= u32::MAX
-        &&& (bs[i] is Item ==> bs[i].bv().len >= 1)
+        &&& bs[i].bv().len >= 1
     }
 }
 
-/// the blocks of client `c` contributed by the first `n` sections, in wire order
-pub open spec fn gather(ss: Seq<SecView>, c: ClientID, n: int) -> Seq<Block>
+/// the run of the LAST of the first `n` sections that names client `c` (empty if there is none): a repeated section REPLACES
+/// the earlier one (`Entry::Occupied(e) => { let blocks = e.into_mut(); blocks.clear(); blocks }`, the Yjs behaviour)
+pub open spec fn latest(ss: Seq<SecView>, c: ClientID, n: int) -> Seq<Block>
     decreases n,
 {
     if n <= 0 {
         Seq::empty()
     } else if ss[n - 1].client == c {
-        gather(ss, c, n - 1) + ss[n - 1].blocks
+        ss[n - 1].blocks
     } else {
-        gather(ss, c, n - 1)
+        latest(ss, c, n - 1)
     }
 }
 
-/// number of blocks contributed by the first `n` sections
+/// number of blocks DECODED by the first `n` sections (an upper bound of the number of blocks of the value: replaced
+/// sections are counted too)
 pub open spec fn total_blocks(ss: Seq<SecView>, n: int) -> int
     decreases n,
 {
@@ -494,20 +552,21 @@ pub open spec fn runs_ok(ss: Seq<SecView>) -> bool {
 
 /// the map while the sections are being read: a key for every client named by a section so far (possibly with an empty list)
 pub open spec fn map_of(ss: Seq<SecView>, m: Map<ClientID, VecDeque<Block>>) -> bool {
-    &&& forall|c: ClientID| #[trigger] m.contains_key(c) ==> m[c]@ == gather(ss, c, ss.len() as int)
-    &&& forall|c: ClientID| !(#[trigger] m.contains_key(c)) ==> gather(ss, c, ss.len() as int).len() == 0
+    &&& forall|c: ClientID| #[trigger] m.contains_key(c) ==> m[c]@ == latest(ss, c, ss.len() as int)
+    &&& forall|c: ClientID| !(#[trigger] m.contains_key(c)) ==> latest(ss, c, ss.len() as int).len() == 0
 }
 
-/// THE RESULT SHAPE (clause (c) of the header comment)
+/// THE RESULT SHAPE (clause (c) of the header comment): the list of client c is the run of c's LAST section; a client whose
+/// last section contributed no block is not a key
 pub open spec fn sections_of(ss: Seq<SecView>, m: Map<ClientID, VecDeque<Block>>) -> bool {
     &&& runs_ok(ss)
-    &&& forall|c: ClientID| #[trigger] m.contains_key(c) <==> gather(ss, c, ss.len() as int).len() > 0
-    &&& forall|c: ClientID| #[trigger] m.contains_key(c) ==> m[c]@ == gather(ss, c, ss.len() as int)
+    &&& forall|c: ClientID| #[trigger] m.contains_key(c) <==> latest(ss, c, ss.len() as int).len() > 0
+    &&& forall|c: ClientID| #[trigger] m.contains_key(c) ==> m[c]@ == latest(ss, c, ss.len() as int)
 }
 
-/// what every encoder of the crate writes: at most one section with blocks per client
-pub open spec fn single_sections(ss: Seq<SecView>) -> bool {
-    forall|i: int, j: int| 0 <= i < j < ss.len() && (#[trigger] ss[i]).blocks.len() > 0 && (#[trigger] ss[j]).blocks.len() > 0 ==> ss[i].client != ss[j].client
+/// the same, with the section named: every list IS one section's run (consequence of `sections_of`, lemma_sections_exact)
+pub open spec fn sections_exact(ss: Seq<SecView>, m: Map<ClientID, VecDeque<Block>>) -> bool {
+    forall|c: ClientID| #[trigger] m.contains_key(c) ==> exists|j: int| 0 <= j < ss.len() && (#[trigger] ss[j]).client == c && ss[j].blocks.len() > 0 && m[c]@ == ss[j].blocks
 }
 
 pub proof fn lemma_len_sum_prefix(bs: Seq<Block>, b: Block, n: int)
@@ -530,7 +589,7 @@ pub proof fn lemma_run_push(client: ClientID, start: int, bs: Seq<Block>, b: Blo
         b.spec_client() == client,
         b.bv().clock == start + len_sum(bs, bs.len() as int),
         b.bv().clock + b.bv().len <= u32::MAX,
-        b is Item ==> b.bv().len >= 1,
+        b.bv().len >= 1,
     ensures
         run_ok(client, start, bs.push(b)),
         len_sum(bs.push(b), bs.len() as int + 1) == len_sum(bs, bs.len() as int) + b.bv().len,
@@ -540,7 +599,7 @@ pub proof fn lemma_run_push(client: ClientID, start: int, bs: Seq<Block>, b: Blo
         &&& (#[trigger] bs2[i]).spec_client() == client
         &&& bs2[i].bv().clock == start + len_sum(bs2, i)
         &&& bs2[i].bv().clock + bs2[i].bv().len <= u32::MAX
-        &&& (bs2[i] is Item ==> bs2[i].bv().len >= 1)
+        &&& bs2[i].bv().len >= 1
     } by {
         lemma_len_sum_prefix(bs, b, i);
         if i < bs.len() {
@@ -551,28 +610,28 @@ pub proof fn lemma_run_push(client: ClientID, start: int, bs: Seq<Block>, b: Blo
     assert(bs2[bs.len() as int] == b);
 }
 
-pub proof fn lemma_gather_prefix(ss: Seq<SecView>, x: SecView, c: ClientID, n: int)
+pub proof fn lemma_latest_prefix(ss: Seq<SecView>, x: SecView, c: ClientID, n: int)
     requires
         n <= ss.len(),
     ensures
-        gather(ss.push(x), c, n) == gather(ss, c, n),
+        latest(ss.push(x), c, n) == latest(ss, c, n),
         total_blocks(ss.push(x), n) == total_blocks(ss, n),
     decreases n,
 {
     if n > 0 {
-        lemma_gather_prefix(ss, x, c, n - 1);
+        lemma_latest_prefix(ss, x, c, n - 1);
         assert(ss.push(x)[n - 1] == ss[n - 1]);
     }
 }
 
-/// the map after one more section: the entry of the section's client is its old list (or nothing) followed by the run
+/// the map after one more section: the entry of the section's client is (re)placed by the section's run
 pub proof fn lemma_section_done(ss: Seq<SecView>, m0: Map<ClientID, VecDeque<Block>>, m1: Map<ClientID, VecDeque<Block>>, x: SecView, q: VecDeque<Block>)
     requires
         map_of(ss, m0),
         runs_ok(ss),
         run_ok(x.client, x.start, x.blocks),
         m1 == m0.insert(x.client, q),
-        q@ == gather(ss, x.client, ss.len() as int) + x.blocks,
+        q@ == x.blocks,
     ensures
         map_of(ss.push(x), m1),
         runs_ok(ss.push(x)),
@@ -581,16 +640,16 @@ pub proof fn lemma_section_done(ss: Seq<SecView>, m0: Map<ClientID, VecDeque<Blo
     let ss2 = ss.push(x);
     let n = ss.len() as int;
     assert(ss2[n] == x);
-    assert forall|c: ClientID| true implies gather(ss2, c, n + 1) == (if c == x.client { gather(ss, c, n) + x.blocks } else { gather(ss, c, n) }) by {
-        lemma_gather_prefix(ss, x, c, n);
+    assert forall|c: ClientID| true implies latest(ss2, c, n + 1) == (if c == x.client { x.blocks } else { latest(ss, c, n) }) by {
+        lemma_latest_prefix(ss, x, c, n);
     }
-    lemma_gather_prefix(ss, x, x.client, n);
-    assert forall|c: ClientID| #[trigger] m1.contains_key(c) implies m1[c]@ == gather(ss2, c, ss2.len() as int) by {
+    lemma_latest_prefix(ss, x, x.client, n);
+    assert forall|c: ClientID| #[trigger] m1.contains_key(c) implies m1[c]@ == latest(ss2, c, ss2.len() as int) by {
         if c != x.client {
             assert(m0.contains_key(c));
         }
     }
-    assert forall|c: ClientID| !(#[trigger] m1.contains_key(c)) implies gather(ss2, c, ss2.len() as int).len() == 0 by {
+    assert forall|c: ClientID| !(#[trigger] m1.contains_key(c)) implies latest(ss2, c, ss2.len() as int).len() == 0 by {
         assert(c != x.client);
         assert(!m0.contains_key(c));
     }
@@ -601,51 +660,24 @@ pub proof fn lemma_section_done(ss: Seq<SecView>, m0: Map<ClientID, VecDeque<Blo
     }
 }
 
-/// every block of a gathered list comes from a run of that client
-pub proof fn lemma_gather_elem(ss: Seq<SecView>, c: ClientID, n: int, i: int)
+/// the run of the last section of a client is empty or IS one section's run
+pub proof fn lemma_latest_is_section(ss: Seq<SecView>, c: ClientID, n: int)
     requires
         0 <= n <= ss.len(),
-        0 <= i < gather(ss, c, n).len(),
     ensures
-        exists|j: int, t: int| 0 <= j < n && ss[j].client == c && 0 <= t < ss[j].blocks.len() && gather(ss, c, n)[i] == #[trigger] ss[j].blocks[t],
+        latest(ss, c, n).len() == 0 || exists|j: int| 0 <= j < n && (#[trigger] ss[j]).client == c && latest(ss, c, n) == ss[j].blocks,
     decreases n,
 {
     if n > 0 {
-        let g = gather(ss, c, n - 1);
-        if ss[n - 1].client == c && i >= g.len() {
-            let t = i - g.len();
-            assert(gather(ss, c, n)[i] == ss[n - 1].blocks[t]);
+        if ss[n - 1].client == c {
+            assert(0 <= n - 1 < n && ss[n - 1].client == c && latest(ss, c, n) == ss[n - 1].blocks);
         } else {
-            lemma_gather_elem(ss, c, n - 1, i);
-            let (j, t) = choose|j: int, t: int| 0 <= j < n - 1 && ss[j].client == c && 0 <= t < ss[j].blocks.len() && g[i] == #[trigger] ss[j].blocks[t];
-            assert(gather(ss, c, n)[i] == ss[j].blocks[t]);
+            lemma_latest_is_section(ss, c, n - 1);
+            if latest(ss, c, n - 1).len() > 0 {
+                let j = choose|j: int| 0 <= j < n - 1 && (#[trigger] ss[j]).client == c && latest(ss, c, n - 1) == ss[j].blocks;
+                assert(0 <= j < n && ss[j].client == c && latest(ss, c, n) == ss[j].blocks);
+            }
         }
-    }
-}
-
-/// COROLLARY of the shape: unit upd's `upd_ok`, no empty list, every block under its own client
-pub proof fn lemma_sections_upd_ok(ss: Seq<SecView>, m: Map<ClientID, VecDeque<Block>>)
-    requires
-        sections_of(ss, m),
-    ensures
-        upd_ok(m),
-        no_empty_list(m),
-        keys_match(m),
-{
-    let n = ss.len() as int;
-    assert forall|c: ClientID| #[trigger] m.contains_key(c) implies list_ok(views(m[c]@)) by {
-        let s = views(m[c]@);
-        assert forall|i: int| 0 <= i < s.len() implies 0 <= (#[trigger] s[i]).clock && 0 <= s[i].len && end_of(s[i]) <= u32::MAX && (s[i].kind is Item ==> s[i].len >= 1) by {
-            lemma_gather_elem(ss, c, n, i);
-            let (j, t) = choose|j: int, t: int| 0 <= j < n && ss[j].client == c && 0 <= t < ss[j].blocks.len() && gather(ss, c, n)[i] == #[trigger] ss[j].blocks[t];
-            assert(run_ok(ss[j].client, ss[j].start, ss[j].blocks));
-            assert(s[i] == m[c]@[i].bv());
-        }
-    }
-    assert forall|c: ClientID, i: int| #![trigger m[c]@[i]] m.contains_key(c) && 0 <= i < m[c]@.len() implies m[c]@[i].spec_client() == c by {
-        lemma_gather_elem(ss, c, n, i);
-        let (j, t) = choose|j: int, t: int| 0 <= j < n && ss[j].client == c && 0 <= t < ss[j].blocks.len() && gather(ss, c, n)[i] == #[trigger] ss[j].blocks[t];
-        assert(run_ok(ss[j].client, ss[j].start, ss[j].blocks));
     }
 }
 
@@ -668,59 +700,34 @@ pub proof fn lemma_run_contiguous(client: ClientID, start: int, bs: Seq<Block>)
     }
 }
 
-/// with at most one non-empty section per client, a gathered list is empty or IS that section's run
-pub proof fn lemma_gather_single(ss: Seq<SecView>, c: ClientID, n: int)
-    requires
-        0 <= n <= ss.len(),
-        single_sections(ss),
-    ensures
-        gather(ss, c, n).len() == 0 || exists|j: int| 0 <= j < n && (#[trigger] ss[j]).client == c && ss[j].blocks.len() > 0 && gather(ss, c, n) == ss[j].blocks,
-    decreases n,
-{
-    if n > 0 {
-        lemma_gather_single(ss, c, n - 1);
-        let g = gather(ss, c, n - 1);
-        if ss[n - 1].client == c {
-            if ss[n - 1].blocks.len() == 0 {
-                assert(g + ss[n - 1].blocks =~= g);
-                if g.len() > 0 {
-                    let j = choose|j: int| 0 <= j < n - 1 && (#[trigger] ss[j]).client == c && ss[j].blocks.len() > 0 && g == ss[j].blocks;
-                    assert(0 <= j < n && ss[j].client == c && ss[j].blocks.len() > 0 && gather(ss, c, n) == ss[j].blocks);
-                }
-            } else {
-                if g.len() > 0 {
-                    let j = choose|j: int| 0 <= j < n - 1 && (#[trigger] ss[j]).client == c && ss[j].blocks.len() > 0 && g == ss[j].blocks;
-                    assert(ss[j].client != ss[n - 1].client);
-                    assert(false);
-                }
-                assert(g + ss[n - 1].blocks =~= ss[n - 1].blocks);
-                assert(0 <= n - 1 < n && ss[n - 1].client == c && ss[n - 1].blocks.len() > 0 && gather(ss, c, n) == ss[n - 1].blocks);
-            }
-        } else {
-            if g.len() > 0 {
-                let j = choose|j: int| 0 <= j < n - 1 && (#[trigger] ss[j]).client == c && ss[j].blocks.len() > 0 && g == ss[j].blocks;
-                assert(0 <= j < n && ss[j].client == c && ss[j].blocks.len() > 0 && gather(ss, c, n) == ss[j].blocks);
-            }
-        }
-    }
-}
-
-/// COROLLARY: a wire update that lists every client in at most one non-empty section decodes to a value with unit upd's
-/// representation invariant `upd_wf` (per client contiguous), and each list starts at its section's clock header
-pub proof fn lemma_single_section_wf(ss: Seq<SecView>, m: Map<ClientID, VecDeque<Block>>)
+/// COROLLARY of the shape (UNCONDITIONAL: a repeated section replaces the earlier one, so every list is ONE run): unit upd's
+/// representation invariant `upd_wf` (`upd_ok` + per client CONTIGUOUS, from the section's clock header on), no empty list, no
+/// empty block, every block under its own client
+pub proof fn lemma_sections_exact(ss: Seq<SecView>, m: Map<ClientID, VecDeque<Block>>)
     requires
         sections_of(ss, m),
-        single_sections(ss),
     ensures
+        sections_exact(ss, m),
         upd_wf(m),
+        upd_ok(m),
+        no_empty_list(m),
+        keys_match(m),
+        all_len_pos(m),
 {
-    lemma_sections_upd_ok(ss, m);
     let n = ss.len() as int;
-    assert forall|c: ClientID| #[trigger] m.contains_key(c) implies list_contiguous(views(m[c]@)) by {
-        lemma_gather_single(ss, c, n);
-        let j = choose|j: int| 0 <= j < n && (#[trigger] ss[j]).client == c && ss[j].blocks.len() > 0 && gather(ss, c, n) == ss[j].blocks;
-        assert(run_ok(ss[j].client, ss[j].start, ss[j].blocks));
-        lemma_run_contiguous(c, ss[j].start, ss[j].blocks);
+    assert forall|c: ClientID| #[trigger] m.contains_key(c) implies
+        (exists|j: int| 0 <= j < ss.len() && (#[trigger] ss[j]).client == c && ss[j].blocks.len() > 0 && m[c]@ == ss[j].blocks)
+        && list_ok(views(m[c]@)) && list_contiguous(views(m[c]@)) && m[c]@.len() > 0
+        && (forall|i: int| 0 <= i < m[c]@.len() ==> (#[trigger] m[c]@[i]).spec_client() == c && m[c]@[i].bv().len >= 1) by {
+        lemma_latest_is_section(ss, c, n);
+        let j = choose|j: int| 0 <= j < n && (#[trigger] ss[j]).client == c && latest(ss, c, n) == ss[j].blocks;
+        let bs = ss[j].blocks;
+        assert(run_ok(ss[j].client, ss[j].start, bs));
+        lemma_run_contiguous(c, ss[j].start, bs);
+        let s = views(bs);
+        assert forall|i: int| 0 <= i < s.len() implies 0 <= (#[trigger] s[i]).clock && 0 <= s[i].len && end_of(s[i]) <= u32::MAX && (s[i].kind is Item ==> s[i].len >= 1) by {
+            assert(s[i] == bs[i].bv());
+        }
     }
 }
 
@@ -735,7 +742,7 @@ pub proof fn lemma_retain_done(ss: Seq<SecView>, m0: Map<ClientID, VecDeque<Bloc
         sections_of(ss, m1),
 {
     let n = ss.len() as int;
-    assert forall|c: ClientID| #[trigger] m1.contains_key(c) <==> gather(ss, c, n).len() > 0 by {
+    assert forall|c: ClientID| #[trigger] m1.contains_key(c) <==> latest(ss, c, n).len() > 0 by {
         if m1.contains_key(c) {
             assert(m0.contains_key(c));
         } else if m0.contains_key(c) {
@@ -841,9 +848,9 @@ pub trait Decoder: ColumnReads {
     ///                    lifted and verified below), Item: `Item::new(id, None, origin, None, right_origin, parent, parent_sub,
     ///                    content)` stores `id` unchanged (block.rs: `Box::new(Item { id, len, .. })`) and `Block::from(item)` is
     ///                    `Block::Item(item)`.
-    ///   Item => len >= 1 `Item::new` computes `let len = content.len(OffsetKind::Utf16); if len == 0 { return None; }` and
-    ///                    decode_block maps `None => Ok(None)`.  A Skip / GC block of length 0 CAN come off the wire (the length
-    ///                    is whatever `read_var` / `read_len` returned): nothing is promised about their length.
+    ///   len >= 1         EVERY block: Item -- `Item::new` computes `let len = content.len(OffsetKind::Utf16); if len == 0 { return
+    ///                    None; }` and decode_block maps `None => Ok(None)`;  Skip / GC -- both arms read the length and
+    ///                    `if len == 0 { return Ok(None); }` before the block is built (lifted and verified below).
     ///   Nothing is promised about the Err cases (which errors, how much was consumed beyond `suffix_of`).
     fn decode_block(id: ID, decoder: &mut Self) -> (res: Result<Option<Block>, Error>)
         requires
@@ -856,11 +863,11 @@ pub trait Decoder: ColumnReads {
     ;
 }
 
-/// a block made for `id`: it carries the id it was given; an Item is not empty
+/// a block made for `id`: it carries the id it was given and is NOT EMPTY (Item, GC and Skip alike)
 pub open spec fn block_of(b: Block, id: ID) -> bool {
     &&& b.spec_client() == id.client
     &&& b.bv().clock == id.clock
-    &&& (b is Item ==> b.bv().len >= 1)
+    &&& b.bv().len >= 1
 }
 
 /*@extract yrs/src/block.rs | - | const BLOCK_GC_REF_NUMBER @*/
@@ -877,7 +884,8 @@ pub open spec fn block_of(b: Block, id: ID) -> bool {
         final(decoder).wf(),
         suffix_of(old(decoder).rest(), final(decoder).rest()),
         res is Ok ==> final(decoder).rest().len() < old(decoder).rest().len(),
-        res is Ok ==> res->Ok_0 is Some && res->Ok_0->Some_0 is Skip && block_of(res->Ok_0->Some_0, id),
+        // Ok(None) for a length of 0 (the guard), otherwise a NON-EMPTY Skip block made for `id`
+        res is Ok && res->Ok_0 is Some ==> res->Ok_0->Some_0 is Skip && block_of(res->Ok_0->Some_0, id),
 @start
     proof { lemma_var_progress::<u32>(decoder.rest()); }
 @*/
@@ -892,7 +900,7 @@ pub open spec fn block_of(b: Block, id: ID) -> bool {
         final(decoder).wf(),
         suffix_of(old(decoder).rest(), final(decoder).rest()),
         D::v1() && res is Ok ==> final(decoder).rest().len() < old(decoder).rest().len(),
-        res is Ok ==> res->Ok_0 is Some && res->Ok_0->Some_0 is GC && block_of(res->Ok_0->Some_0, id),
+        res is Ok && res->Ok_0 is Some ==> res->Ok_0->Some_0 is GC && block_of(res->Ok_0->Some_0, id),
 @*/
 
 // ---------------------------------------------------------------------------------------------
@@ -1018,6 +1026,19 @@ impl Decode for IdSet {
     @*/
 }
 
+// the statement that claims the client's list (`let blocks = match blocks.clients.entry(client) { Entry::Vacant(e) =>
+// e.insert(VecDeque::new()), Entry::Occupied(e) => { let blocks = e.into_mut(); blocks.clear(); blocks } };`), lifted on its
+// own (R18): whether or not the client already has an entry, the section starts from an EMPTY list (a repeated section
+// REPLACES the earlier one) and no other client is touched
+/*@extract yrs/src/update.rs | impl Decode for Update | region decode | stmt=stmt:for >> stmt:let blocks ~ entry | stmtnth=1 | tail=blocks | label=upd_decode_claim
+@header
+    fn upd_decode_claim<'a>(blocks: &'a mut BlockSet, client: ClientID) -> (r: &'a mut VecDeque<Block>)
+@sig
+    ensures
+        r@.len() == 0,
+        final(blocks).clients@ == old(blocks).clients@.insert(client, *final(r)),
+@*/
+
 /// one round of the inner loop: either no block (empty content) and the clock stays, or ONE block made for the current id is
 /// appended at the BACK and the clock advances by its length (without leaving u32: the new clock is a u32)
 pub open spec fn step_ok(q0: Seq<Block>, q1: Seq<Block>, id: ID, c1: u32) -> bool {
@@ -1055,6 +1076,8 @@ pub open spec fn consumed(s0: Seq<u8>, s1: Seq<u8>) -> int {
 /// clauses (c) and (d) of the header comment: `m` is the map made of the sections `ss`, read from `used` bytes of the main stream
 pub open spec fn decoded_as(ss: Seq<SecView>, m: Map<ClientID, VecDeque<Block>>, used: int, v1: bool) -> bool {
     &&& sections_of(ss, m)
+    // (implied, lemma_sections_exact; stated so that a client of the contract need not re-derive it)
+    &&& sections_exact(ss, m)
     // every section took at least two bytes (its block count and its clock header)
     &&& 2 * ss.len() < used
     // v1: ... and every block at least one more (its info byte): the value is linear in the input
@@ -1068,10 +1091,13 @@ impl Decode for Update {
         ensures
             // (c) SHAPE and (d) SIZE, see the header comment
             res is Ok ==> exists|ss: Seq<SecView>| #[trigger] decoded_as(ss, res->Ok_0.blocks.clients@, consumed(old(decoder).rest(), final(decoder).rest()), D::v1()),
-            // corollaries (lemma_sections_upd_ok): unit upd's `upd_ok`; `retain`; every block under its own client
+            // corollaries (lemma_sections_exact): unit upd's REPRESENTATION INVARIANT `upd_wf` (= `upd_ok` + per client contiguous),
+            // unconditionally; `retain`; every block under its own client; no empty block
+            res is Ok ==> upd_wf(res->Ok_0.blocks.clients@),
             res is Ok ==> upd_ok(res->Ok_0.blocks.clients@),
             res is Ok ==> no_empty_list(res->Ok_0.blocks.clients@),
             res is Ok ==> keys_match(res->Ok_0.blocks.clients@),
+            res is Ok ==> all_len_pos(res->Ok_0.blocks.clients@),
     @start
         let ghost s0 = decoder.rest();
         let ghost mut ss = Seq::<SecView>::empty();
@@ -1121,14 +1147,10 @@ impl Decode for Update {
             lemma_suffix_len(sc, sd);
             lemma_suffix_skip(sd, 0);
         }
-    @closure 1 `|| -> (vx_q: VecDeque<Block>)`
-        ensures vx_q@.len() == 0,
-    @after 1 `stmt:let blocks ~ or_insert_with`
-        let ghost g0 = blocks@;
+    @after 1 `stmt:let blocks ~ entry`
         proof {
-            assert(g0 =~= gather(ss, client, ss.len() as int));
-            assert(blocks@.skip(g0.len() as int) =~= Seq::<Block>::empty());
-            assert(blocks@.take(g0.len() as int) =~= g0);
+            // vacant or occupied-and-cleared: the section starts from an empty list
+            assert(blocks@ =~= Seq::<Block>::empty());
         }
     @loop 2
         invariant
@@ -1137,11 +1159,9 @@ impl Decode for Update {
             suffix_of(s0, sd),
             suffix_of(s1, sd),
             suffix_of(sd, decoder.rest()),
-            g0.len() <= blocks@.len(),
-            blocks@.take(g0.len() as int) == g0,
-            run_ok(client, start, blocks@.skip(g0.len() as int)),
-            clock == start + len_sum(blocks@.skip(g0.len() as int), blocks@.len() - g0.len()),
-            D::v1() ==> decoder.rest().len() + (blocks@.len() - g0.len()) <= sd.len(),
+            run_ok(client, start, blocks@),
+            clock == start + len_sum(blocks@, blocks@.len() as int),
+            D::v1() ==> decoder.rest().len() + blocks@.len() <= sd.len(),
     @loopstart 2
         let ghost se = decoder.rest();
         let ghost q0 = blocks@;
@@ -1157,18 +1177,12 @@ impl Decode for Update {
             // one round = `step_ok` (the contract of the lifted step `upd_decode_step`): nothing, or one block at the back
             assert(step_ok(q0, blocks@, ID { client, clock: c0 }, clock));
             if blocks@ != q0 {
-                let run0 = q0.skip(g0.len() as int);
-                let b = blocks@.last();
-                assert(blocks@.skip(g0.len() as int) =~= run0.push(b));
-                assert(blocks@.take(g0.len() as int) =~= q0.take(g0.len() as int));
-                lemma_run_push(client, start, run0, b);
+                lemma_run_push(client, start, q0, blocks@.last());
             }
         }
     @afterloop 2
         proof {
-            let run = blocks@.skip(g0.len() as int);
-            let x = SecView { client, start, blocks: run };
-            assert(blocks@ =~= g0 + run);
+            let x = SecView { client, start, blocks: blocks@ };
             lemma_section_done(ss, m0, m0.insert(client, *blocks), x, *blocks);
             lemma_suffix_trans(s0, sd);
             lemma_suffix_trans(s1, sd);
@@ -1177,7 +1191,7 @@ impl Decode for Update {
         }
     @afterloop 1
         let ghost hm1 = blocks.clients;
-    @closure 2 `|_c: &ClientID, blocks: &mut VecDeque<Block>| -> (keep: bool)`
+    @closure 1 `|_c: &ClientID, blocks: &mut VecDeque<Block>| -> (keep: bool)`
         ensures
             keep == (old(blocks)@.len() > 0),
             *final(blocks) == *old(blocks),
@@ -1193,7 +1207,7 @@ impl Decode for Update {
                 assert(hm1.vx_view().contains_key(c) && !blocks.clients.vx_view().contains_key(c));
             }
             lemma_retain_done(ss, m1, m2);
-            lemma_sections_upd_ok(ss, m2);
+            lemma_sections_exact(ss, m2);
             lemma_suffix_trans(s0, sf);
         }
     @after 1 `stmt:let delete_set`
@@ -1273,14 +1287,10 @@ impl Decode for Update {
         lemma_suffix_len(sc, sd);
         lemma_suffix_skip(sd, 0);
     }
-@closure 1 `|| -> (vx_q: VecDeque<Block>)`
-    ensures vx_q@.len() == 0,
-@after 1 `stmt:let blocks ~ or_insert_with`
-    let ghost g0 = blocks@;
+@after 1 `stmt:let blocks ~ entry`
     proof {
-        assert(g0 =~= gather(ss, client, ss.len() as int));
-        assert(blocks@.skip(g0.len() as int) =~= Seq::<Block>::empty());
-        assert(blocks@.take(g0.len() as int) =~= g0);
+        // vacant or occupied-and-cleared: the section starts from an empty list
+        assert(blocks@ =~= Seq::<Block>::empty());
     }
 @loop 2
     invariant
@@ -1289,11 +1299,9 @@ impl Decode for Update {
         suffix_of(s0, sd),
         suffix_of(s1, sd),
         suffix_of(sd, decoder.rest()),
-        g0.len() <= blocks@.len(),
-        blocks@.take(g0.len() as int) == g0,
-        run_ok(client, start, blocks@.skip(g0.len() as int)),
-        clock == start + len_sum(blocks@.skip(g0.len() as int), blocks@.len() - g0.len()),
-        D::v1() ==> decoder.rest().len() + (blocks@.len() - g0.len()) <= sd.len(),
+        run_ok(client, start, blocks@),
+        clock == start + len_sum(blocks@, blocks@.len() as int),
+        D::v1() ==> decoder.rest().len() + blocks@.len() <= sd.len(),
 @loopstart 2
     let ghost se = decoder.rest();
     let ghost q0 = blocks@;
@@ -1309,18 +1317,12 @@ impl Decode for Update {
         // one round = `step_ok` (the contract of the lifted step `upd_decode_step`): nothing, or one block at the back
         assert(step_ok(q0, blocks@, ID { client, clock: c0 }, clock));
         if blocks@ != q0 {
-            let run0 = q0.skip(g0.len() as int);
-            let b = blocks@.last();
-            assert(blocks@.skip(g0.len() as int) =~= run0.push(b));
-            assert(blocks@.take(g0.len() as int) =~= q0.take(g0.len() as int));
-            lemma_run_push(client, start, run0, b);
+            lemma_run_push(client, start, q0, blocks@.last());
         }
     }
 @afterloop 2
     proof {
-        let run = blocks@.skip(g0.len() as int);
-        let x = SecView { client, start, blocks: run };
-        assert(blocks@ =~= g0 + run);
+        let x = SecView { client, start, blocks: blocks@ };
         lemma_section_done(ss, m0, m0.insert(client, *blocks), x, *blocks);
         lemma_suffix_trans(s0, sd);
         lemma_suffix_trans(s1, sd);
@@ -1329,7 +1331,7 @@ impl Decode for Update {
     }
 @afterloop 1
     let ghost hm1 = blocks.clients;
-@closure 2 `|_c: &ClientID, blocks: &mut VecDeque<Block>| -> (keep: bool)`
+@closure 1 `|_c: &ClientID, blocks: &mut VecDeque<Block>| -> (keep: bool)`
     ensures
         keep == (old(blocks)@.len() > 0),
         *final(blocks) == *old(blocks),
@@ -1345,7 +1347,7 @@ impl Decode for Update {
             assert(hm1.vx_view().contains_key(c) && !blocks.clients.vx_view().contains_key(c));
         }
         lemma_retain_done(ss, m1, m2);
-        lemma_sections_upd_ok(ss, m2);
+        lemma_sections_exact(ss, m2);
         lemma_suffix_trans(s0, sf);
     }
 @after 1 `stmt:let delete_set`
